@@ -386,3 +386,29 @@ def r11(ctx, R):
                 R.check(not lack and not differ, f'{fn.name} :: th.{name}(..) at line {c.lineno} passes the options of its sibling call sites', w, {k: opts[0].get(k) for k in allk}, {'missing': lack, 'different': differ})
     if n < 4:
         raise AnalysisError(f'C11.R11: only {n} sibling call sites of transfer_helper builders found')
+
+
+@rule('C11', 'C11.R12', 'FFT prolongation copies EVERY mode the coarse grid resolves: the zero-padded fine spectrum receives coarse_hat[0 : Nc // 2] (all non-negative wavenumbers below the coarse Nyquist mode) at the same indices, plus the last entry; a shorter slice drops the highest resolved mode (band-limited data is not reproduced, injection after prolongation is not the identity)', floor=3)
+def r12(ctx, R):
+    from ..inline import facts as _facts
+    repo = ctx.repo
+    rel = TC + 'TransferMesh_FFT.py'
+    fn = repo.func(rel, 'mesh_to_mesh_fft.prolong')
+    w = f'{rel}:mesh_to_mesh_fft.prolong'
+    R.fn(w)
+    inner = [f for f in ast.walk(fn) if isinstance(f, ast.FunctionDef) and f is not fn]
+    if len(inner) != 1:
+        raise AnalysisError(f'C11.R12: expected one inner helper in mesh_to_mesh_fft.prolong, found {len(inner)}')
+    fs = _facts(inner[0])
+    arg = inner[0].args.args[0].arg
+    spec = f'np.fft.rfft({arg})'
+    pad = [f[1] for f in fs if f[0] == 'assign' and f[2].startswith('np.zeros(self.fine_prob.init[0] // 2 + 1')]
+    stores = [(f[1], f[2]) for f in fs if f[0] == 'store']
+    nc = 'self.coarse_prob.init[0] // 2'
+    lo = [(t, v) for t, v in stores if ':' in t]
+    ok = len(pad) == 1 and len(lo) == 1 and lo[0] == (f'{pad[0]}[0:{nc}]', f'{spec}[0:{nc}]')
+    R.check(ok, 'mesh_to_mesh_fft.prolong :: padded[0 : Nc//2] = rfft(coarse)[0 : Nc//2] (same slice on both sides, all resolved modes)', w, f'padded[0:{nc}] = {spec}[0:{nc}]', lo)
+    last = [(t, v) for t, v in stores if t.endswith('[-1]')]
+    R.check(len(pad) == 1 and last == [(f'{pad[0]}[-1]', f'{spec}[-1]')], 'mesh_to_mesh_fft.prolong :: the last entry of the padded spectrum takes the last coarse entry', w, 'padded[-1] = rfft(coarse)[-1]', last)
+    rets = [f[1] for f in fs if f[0] == 'return']
+    R.check(len(rets) == 1 and rets[0] == 'np.fft.irfft(_v1) * self.ratio' or (len(rets) == 1 and re.fullmatch(r'np\.fft\.irfft\(\w+\) \* self\.ratio', rets[0]) is not None), 'mesh_to_mesh_fft.prolong :: back transform scaled by the grid ratio', w, 'np.fft.irfft(fine_hat) * self.ratio', rets)
